@@ -378,8 +378,8 @@ func init() {
 			json.Unmarshal(raw, &a)
 			return realDotenv(a.Src, a.Lookup)
 		},
-		DriverOp: "dotenv",
-		Judge: func(args, real, drv json.RawMessage) *core.Verdict {
+		DriverOp: "dotenvT", // round 5: the traced model (outcome + branch mask); `parseT_is_parse` says the outcome is `Dotenv.parse`
+		Judge: func(args, real, drvT json.RawMessage) *core.Verdict {
 			if v := core.CrashVerdict(real); v != nil {
 				return v
 			}
@@ -388,9 +388,14 @@ func init() {
 			if _, bad := r["entryDiffers"]; bad {
 				return core.Fail("entrypoints-differ", fmt.Sprintf("UnmarshalWithLookup and ParseWithLookup disagree: %s", real))
 			}
-			if !core.CanonEqual(real, drv) {
+			var t tracedOut
+			if err := json.Unmarshal(drvT, &t); err != nil || t.Out == nil {
+				return core.Disagree(fmt.Sprintf("no traced outcome from the driver: %s", drvT))
+			}
+			if !core.CanonEqual(real, t.Out) {
 				return core.Disagree("Dotenv.parse ≠ dotenv.UnmarshalWithLookup")
 			}
+			c18RecordBranches(t.Br)
 			return nil
 		},
 	})
@@ -557,6 +562,33 @@ func runC18(ctx *core.Ctx) {
 	c18Random(ctx)
 	c18Raw(ctx)
 	c18Files(ctx)
+	c18Octal(ctx)
+	c18Coverage(ctx)
+}
+
+// round 5 (found by the branch histogram: no quick-tier correspondence input ever reached the accepted octal escape —
+// `\0` + three digits needs five tokens, the exhaustive bodies stop at four): every `\0` + ≤ 4 digits over
+// {0,1,3,7,8,9} between double quotes (accepted: three octal digits ≤ 255; kept: fewer digits, 8/9, > 255; a fourth
+// digit is ordinary text), and the three-digit forms between single quotes and unquoted (no escape processing there)
+func c18Octal(ctx *core.Ctx) {
+	digs := []string{"0", "1", "3", "7", "8", "9"}
+	var rec func(ds string, n int)
+	rec = func(ds string, n int) {
+		ctx.Count("model-octal-escape")
+		ctx.Add("dotenv", dotenvArgs{Src: "B=\"\\0" + ds + "\"\n", Lookup: c18Lookups[0]})
+		if len(ds) == 3 {
+			ctx.Add("dotenv", dotenvArgs{Src: "B='\\0" + ds + "'\n", Lookup: c18Lookups[0]})
+			ctx.Add("dotenv", dotenvArgs{Src: "A=x\nB=\\0" + ds + " # $A\n", Lookup: c18Lookups[0]})
+			ctx.Add("dotenv", dotenvArgs{Src: "A=x\nB=\"$A\\0" + ds + "${A}\\\\\"", Lookup: c18Lookups[1]})
+		}
+		if n == 0 {
+			return
+		}
+		for _, d := range digs {
+			rec(ds+d, n-1)
+		}
+	}
+	rec("", 4)
 }
 
 // 1. exhaustive small scope: every token string up to a length over two alphabets
